@@ -259,6 +259,93 @@ def rule_entry_first(ctx):
         ctx.check(okc, R, "half-open-entry-test", b.where(x), "the first module is the mapping with entry in [start, start+size) (std Range::contains), entry <- auxv.get_entry_address()", "entry-point predicate not recognised")
 
 
+def rule_module_order(ctx):
+    """the module list is written in collection order: dumper.mappings order (entry-point mapping first, C08/entry-first) followed by
+    the caller's list.  Between collection and alloc_from_iter nothing may reorder, drop or insert elements of the local vector."""
+    R = "C08/module-order"
+    b = ctx.body(R, "linux::sections::mappings::write")
+    if b is None:
+        return
+    o = Origin(b)
+    pushes = [(bi, t) for bi, t in b.calls(lambda c: c.short == "std::vec::Vec::push")
+              if any(s[0] == "call" and s[1].endswith("fill_raw_module") for s in walk(o.call_args(bi)[1]))]
+    ctx.floor(R, "modules.push(fill_raw_module(..)) sites", len(pushes), 2)
+    if not pushes:
+        return
+    # the vector local: the place the push receiver borrows
+    vecs = set()
+    for bi, t in pushes:
+        a0 = t["args"][0]
+        if a0["k"] in ("move", "copy"):
+            for d in o._reaching(a0["p"]["l"], (), (bi, "term")):
+                if d[0] == "full" and d[3]["r"]["k"] == "ref" and not d[3]["r"]["p"]["proj"]:
+                    vecs.add(d[3]["r"]["p"]["l"])
+    if len(vecs) != 1:
+        ctx.unproven(R, "vector", b.where(pushes[0][0]), "cannot identify the module vector (candidates: %s)" % sorted(vecs))
+        return
+    V = list(vecs)[0]
+    bad, uses = [], 0
+    for bi, blk in enumerate(b.blocks):
+        if blk["cleanup"]:
+            continue
+        for si, st in enumerate(blk["stmts"]):
+            if st["k"] == "assign" and st["r"]["k"] in ("ref", "addr", "rawptr") and st["r"].get("bk", "mut") != "shared" and st["r"]["p"]["l"] == V:
+                tmp = st["p"]["l"]
+                how = None
+                frontier, seen = [tmp], set()
+                while frontier and how is None:
+                    x = frontier.pop()
+                    if x in seen:
+                        continue
+                    seen.add(x)
+                    for ci, t in b.calls():
+                        if any(a.get("k") in ("move", "copy") and a["p"]["l"] == x for a in t["args"]):
+                            nm = (CalleeView(t["callee"]).short or "?")
+                            if nm.split("::")[-1] in ("deref_mut", "as_mut_slice", "as_mut", "borrow_mut") and t.get("dest") is not None:
+                                frontier.append(t["dest"]["l"] if isinstance(t["dest"], dict) else t["dest"])
+                            else:
+                                how = nm
+                    for bj, blk2 in enumerate(b.blocks):
+                        for st2 in blk2["stmts"]:
+                            if st2["k"] == "assign" and st2["r"]["k"] in ("ref", "use") and (st2["r"].get("p") or st2["r"].get("o", {}).get("p") or {}).get("l") == x:
+                                frontier.append(st2["p"]["l"])
+                uses += 1
+                if how is None or how.split("::")[-1] != "push" or "Vec" not in how:
+                    bad.append("%s @ %s" % (how or "escaping &mut", b.where(bi, si)))
+    ctx.check(not bad, R, "push-only", b.where(pushes[0][0]),
+              "the module vector is only ever appended to (%d mutable uses, all Vec::push): the written order is the collection order" % uses,
+              "the module vector is reordered or edited after collection by %s: the module containing the entry point is no longer guaranteed to be first" % bad)
+    # target mappings are visited in list order: index = item of the plain ascending range 0..mappings.len()
+    for bi, t in b.calls(lambda c: (c.short or "").endswith("fill_raw_module")):
+        m = strip(o.call_args(bi)[1])
+        if not (m[0] == "call" and m[1].split("::")[-1] == "index"):
+            continue   # the caller-supplied list (second loop)
+        recv, ix = strip(m[2][0]), strip(m[2][1])
+        okr = recv == ("field", ("param", 3), "mappings")
+        oki = False
+        if ix[0] == "call" and ix[1].split("::")[-1] == "next" and ix[2]:
+            it = strip(ix[2][0])
+            while it[0] == "call" and it[1].split("::")[-1] == "into_iter" and it[2]:
+                it = strip(it[2][0])
+            if it[0] == "agg" and it[1].endswith("ops::Range"):
+                d = dict(it[3])
+                st_, en_ = core(d["start"]), core(d["end"])
+                oki = st_ == ("const", 0, "usize") and en_[0] in ("call", "len") and any(x == ("field", ("param", 3), "mappings") for x in walk(en_))
+        ctx.check(okr and oki, R, "ascending-over-mappings", b.where(bi), "target modules are collected in dumper.mappings order (index ranges over 0..mappings.len() ascending)",
+                  "target modules are not collected in list order: mapping is %s" % show(m)[:160])
+    # it is handed to alloc_from_iter as it is
+    afi = [(bi, t) for bi, t in b.calls(lambda c: (c.short or "").endswith("MemoryArrayWriter::alloc_from_iter"))]
+    ctx.floor(R, "alloc_from_iter(modules)", len(afi), 1)
+    for bi, t in afi:
+        a1 = t["args"][1]
+        ok = a1["k"] == "move" and a1["p"]["l"] == V and not a1["p"]["proj"]
+        if not ok and a1["k"] in ("move", "copy"):
+            ds = o._reaching(a1["p"]["l"], (), (bi, "term"))
+            ok = len(ds) == 1 and ds[0][0] == "full" and ds[0][3]["r"]["k"] == "use" and ds[0][3]["r"]["o"].get("p", {}).get("l") == V
+        ctx.check(ok, R, "written-as-collected", b.where(bi), "alloc_from_iter consumes the vector itself (no adaptor in between)",
+                  "alloc_from_iter is fed %s, not the collected vector" % show(o.call_args(bi)[1])[:120])
+
+
 def rule_name_rule(ctx):
     R = "C08/name-rule"
     b = ctx.body(R, MI + "::get_mapping_effective_path_name_and_version")
@@ -312,5 +399,6 @@ def run(ctx):
     rule_module_fields(ctx)
     rule_filter(ctx)
     rule_entry_first(ctx)
+    rule_module_order(ctx)
     rule_name_rule(ctx)
     rule_no_dev_open(ctx)
